@@ -10,6 +10,7 @@ import (
 	"strconv"
 	"strings"
 	"testing"
+	"time"
 	"unicode/utf16"
 
 	"github.com/mithrandie/csvq/lib/option"
@@ -317,8 +318,15 @@ func mutate(t *rapid.T, b []byte, format string) ([]byte, string) {
 	case 4:
 		return append([]byte(fw.PickU(t, "bom", boms)), b...), "bom"
 	case 5:
+		// a very long run. Runs of characters that can be field separators are kept
+		// at 1 500: csvq's work per table is quadratic in the number of columns
+		// (20 000 columns take ~15 s), which is slowness, not a hang.
+		ch := fw.PickU(t, "longc", []string{"x", "x", "あ", "\"", " ", ",", "\t"})
 		n := fw.PickU(t, "longn", []int{300, 5000, 5000, 70000})
-		return ins(pos("p"), strings.Repeat(fw.PickU(t, "longc", []string{"x", "x", "あ", "\"", " ", ","}), n)), "long_line"
+		if ch != "x" && n > 1500 {
+			n = 1500
+		}
+		return ins(pos("p"), strings.Repeat(ch, n)), "long_line"
 	case 6:
 		// uneven field counts: drop a delimiter or add a field to one line
 		d := map[string]string{"CSV": ",", "TSV": "\t", "LTSV": "\t", "FIXED": " ", "JSON": ",", "JSONL": ","}[format]
@@ -356,7 +364,7 @@ func mutate(t *rapid.T, b []byte, format string) ([]byte, string) {
 		if q > len(b) {
 			q = len(b)
 		}
-		times := fw.PickU(t, "times", []int{1, 2, 400})
+		times := fw.PickU(t, "times", []int{1, 2, 40})
 		return ins(p, strings.Repeat(string(b[p:q]), times)), "splice_dup"
 	case 9:
 		rep := fw.PickU(t, "lb", []string{"\r\n", "\r", "\n\n", "\r\r\n"})
@@ -490,9 +498,6 @@ func genLoad(t *rapid.T) loadCase {
 			c.Pos = "SPACES"
 		case 2:
 			c.Pos = fw.PickU(t, "posWeird", weirdPositions)
-			if avoidKnownSingleLineNoPositions && singleLineNoPositions(c.Pos) {
-				c.Pos = "S[1]"
-			}
 		default:
 			if fixedPos != "" {
 				c.Pos = "S" + fixedPos
@@ -502,6 +507,9 @@ func genLoad(t *rapid.T) loadCase {
 		}
 		if fw.Pct(t, "posUnset", 8) {
 			c.Pos = ""
+		}
+		if avoidKnownSingleLineNoPositions && singleLineNoPositions(c.Pos) {
+			c.Pos = "S[1]"
 		}
 	}
 	if len(c.Data) > 200000 {
@@ -649,6 +657,8 @@ func (c loadCase) optClass() string {
 // data-level rejections: the loader looked at the bytes and refused them.
 var rejectionNumbers = map[string]bool{"E10001": true, "E10701": true, "E10702": true, "E10704": true, "E11301": true}
 
+var slowLog = os.Getenv("C19_SLOW")
+
 var loadDir string
 
 func loadScratch() string {
@@ -685,6 +695,17 @@ func checkLoad(c loadCase) (fw.Outcome, *fw.Violation) {
 			return o, fw.Harness("write %s: %v", path, err)
 		}
 	}
+	started := time.Now()
+	if slowLog == "2" {
+		b, _ := json.Marshal(c)
+		_ = os.WriteFile("/tmp/c19-current.json", b, 0644)
+	}
+	defer func() {
+		if d := time.Since(started); slowLog != "" && d > 300*time.Millisecond {
+			b, _ := json.Marshal(c)
+			fmt.Fprintf(os.Stderr, "SLOW %v %s\n", d, clip(string(b), 700))
+		}
+	}()
 	res := execGuarded(opt, sql, func(s *run.Sess, eo *execOut) {
 		// the loaded tables themselves, not only what SELECT * made of them
 		if path != "" {
